@@ -112,6 +112,26 @@ class Acc:
             lst.append({"bucket": bucket, "case": case, "detail": str(detail)[:4000]})
         self.count("FAIL:" + "/".join(map(str, bucket)))
 
+    def absorb(self, d):
+        """merge the dump() of another Acc (e.g. one filled in a forked child) into this one"""
+        self.evaluations += d["evaluations"]
+        self.nontrivial.update(d["nontrivial"])
+        for k, v in d["hist"].items():
+            self.hist[k] = self.hist.get(k, 0) + v
+        for k, v in d["excluded"].items():
+            self.excluded[k] = self.excluded.get(k, 0) + v
+        for s_ in d["samples"]:
+            if len(self.samples) < self.MAX_SAMPLES:
+                self.samples.append(s_)
+        for key, lst in d["failures"].items():
+            cur = self.failures.setdefault(key, [])
+            cur.extend(lst[: max(0, self.MAX_FAIL_PER_BUCKET - len(cur))])
+        for k, v in d["extra"].items():
+            if isinstance(v, (int, float)) and isinstance(self.extra.get(k, 0), (int, float)):
+                self.extra[k] = self.extra.get(k, 0) + v
+            else:
+                self.extra[k] = v
+
     def dump(self):
         return {
             "evaluations": self.evaluations,
